@@ -932,11 +932,11 @@ def Pred.wf : Pred → Bool
   | .traj _ states _ => states.all St.wf
   | .set _ => true
 
-/-- admissible snapshot: every state's attributes are fields of message `State` in descriptor order, every entry of a
-    signal series has at least one slot (an object without slots cannot be told from "no signal state" in the format) -/
+/-- admissible snapshot: every state's attributes are fields of message `State`, listed in descriptor order (a state's
+    populated attributes form a MAP name ↦ value; the snapshot lists that map in the one canonical order) -/
 def Scn.wf (x : Scn) : Bool :=
-  x.static.all (fun o => o.init.wf && o.series.all Sig.any) &&
-  x.dynamic.all (fun o => o.init.wf && o.series.all Sig.any && (match o.pred with | some p => p.wf | none => true)) &&
+  x.static.all (fun o => o.init.wf) &&
+  x.dynamic.all (fun o => o.init.wf && (match o.pred with | some p => p.wf | none => true)) &&
   x.pps.all (fun p => p.init.wf && p.goals.all (fun g => g.state.wf))
 
 /-- the snapshot of real objects: the accessors of lanelets, signs and lights never return `None` for these -/
@@ -944,5 +944,53 @@ def Scn.typed (x : Scn) : Bool :=
   x.lanelets.all (fun l => l.lm_left.isSome && l.lm_right.isSome) &&
   x.signs.all (fun s => s.pos.isSome && s.virtual.isSome && s.elements.all (fun e => signCountries.contains e.country)) &&
   x.lights.all (fun t => t.pos.isSome && t.offset.isSome && t.direction.isSome && t.active.isSome)
+
+/-! ## Which class a state reads back as — stated on the Python side (no encoder / decoder involved) -/
+
+/-- The class a populated-attribute set denotes: the first class of `SpecificStateClasses` whose dataclass attributes are
+    exactly `time_step`, `position` (iff the state has one) and the populated float attributes `keys` (as many attributes as
+    populated ones, each of them populated); none = a custom state. -/
+def specClassK (hasPos : Bool) (keys : List String) : Option String :=
+  (stateClasses.find? fun c =>
+      c.2.length == (if hasPos then 1 else 0) + keys.length + 1 &&
+      c.2.all (fun a => if a == "position" then hasPos else if a == "time_step" then true else keys.contains a)).map (·.1)
+
+def St.specClass (s : St) : String := (specClassK s.pos.isSome (s.attrs.map Prod.fst)).getD "CustomState"
+
+/-- the float attributes of a class that message `State` has a field for, in descriptor order -/
+def ownKeys (c : String × List String) : List String := stateFields.filter (fun n => c.2.contains n)
+
+/-- every attribute of the class can be written: it is `time_step`, `position` or a field of message `State` -/
+def writableClass (c : String × List String) : Bool :=
+  c.2.all (fun a => a == "time_step" || a == "position" || stateFields.contains a)
+
+/-! ## Canonical snapshots: the content the format can hold, in the form the reader returns it -/
+
+/-- an initial state in the form the reader returns it: class `InitialState`, a position, exactly the five float attributes
+    of `InitialState` (all populated) -/
+def St.initFull (s : St) : Bool :=
+  s.wf && s.cls == "InitialState" && s.pos.isSome && s.attrs.map Prod.fst == initFields
+
+/-- an initial state the format can hold without loss: it has a position and populates nothing but attributes of
+    `InitialState` (what `Obstacle.initial_state` enforces and `PlanningProblem.initial_state` is annotated with) -/
+def St.initOk (s : St) : Bool := s.pos.isSome && s.attrs.all (fun kv => initFields.contains kv.1)
+
+/-- a state whose class name is the one its populated attributes denote -/
+def St.canon (s : St) : Bool := s.wf && s.cls == s.specClass
+
+def sig0Canon : Option Sig → Bool
+  | some s => s.any
+  | none => true
+
+def Pred.canon : Pred → Bool
+  | .traj _ states _ => states.all St.canon
+  | .set _ => true
+
+/-- canonical snapshot: initial states fully populated, every other state carries the class its attributes denote, a
+    present initial signal state has at least one slot -/
+def Scn.canon (x : Scn) : Bool :=
+  x.static.all (fun o => o.init.initFull && sig0Canon o.sig0) &&
+  x.dynamic.all (fun o => o.init.initFull && sig0Canon o.sig0 && (match o.pred with | some p => p.canon | none => true)) &&
+  x.pps.all (fun p => p.init.initFull && p.goals.all (fun g => g.state.canon))
 
 end CR.PBF
